@@ -28,7 +28,7 @@ ASSUMPTIONS = [
     "visit() is only required to support the methods it implements (pre, post, level); others must raise NotImplementedError",
     "skip in post-order is documented as unsupported: nothing asserted there",
 ]
-EXHAUSTIVE_NOTE = {"quick": "all ordered forests with <= 6 nodes x every start", "thorough": "all ordered forests with <= 8 nodes x every start"}
+EXHAUSTIVE_NOTE = {"quick": "all ordered forests with <= 6 nodes x every start", "thorough": "all ordered forests with <= 10 nodes x every start"}
 
 ORDERED = [
     IterMethod.PRE_ORDER,
@@ -273,7 +273,7 @@ def run(case, rec):
 
 # ---------------------------------------------------------------------------------
 def _bound(tier):
-    return 6 if tier == "quick" else 8
+    return 6 if tier == "quick" else 10
 
 
 def enum_cases(tier):
@@ -296,5 +296,5 @@ def hyp_cases(draw, tier):
 
 PARTS = [
     Part("exhaustive", run, enum=enum_cases),
-    Part("random-deep-wide", run, strategy=lambda tier: hyp_cases(tier), n={"quick": 40, "thorough": 3000}),
+    Part("random-deep-wide", run, strategy=lambda tier: hyp_cases(tier), n={"quick": 100, "thorough": 20000}),
 ]
